@@ -8,6 +8,9 @@ import (
 	"encoding/base64"
 	"encoding/json"
 	"fmt"
+	"hash/adler32"
+	"hash/crc32"
+	"hash/fnv"
 	"strings"
 
 	"github.com/mandykoh/prism/meta/icc"
@@ -508,6 +511,7 @@ func runC17(r *core.Run) {
 			}
 		}
 	})
+	c17Twins(r)
 	// real profiles embedded in the repository's test images
 	real := 0
 	for _, rf := range realFiles() {
@@ -532,6 +536,120 @@ func runC17(r *core.Run) {
 		}
 	}
 	r.Obs("real_profiles_read", real)
+}
+
+// c17Twins: pairs of descriptions that a cache keyed on less than the whole string cannot tell
+// apart - same length and the same 32-bit hash (FNV-1, FNV-1a, CRC-32 IEEE and Castagnoli, Adler-32,
+// found by a birthday search over seeded strings, on the UTF-16BE bytes and on the text), same
+// length with equal first and last eight characters, one a prefix of the other - read one after
+// the other in one process (A, B, A); and profiles whose tag data is several MiB (5, 17, 33 MiB:
+// a size cap on "plausible" tag data must not reject a well-formed profile).
+func c17Twins(r *core.Run) {
+	rg := core.NewRNG(r.Seed, "C17", "twins")
+	type pair struct{ why, a, b string }
+	var pairs []pair
+	const L = 10
+	mk := func() string {
+		b := make([]byte, L)
+		for i := range b {
+			b[i] = byte('a' + rg.Intn(26))
+		}
+		return string(b)
+	}
+	strs := make([]string, 1<<18)
+	for i := range strs {
+		strs[i] = mk()
+	}
+	utf16be := func(s string) []byte {
+		out := make([]byte, 0, 2*len(s))
+		for _, c := range []byte(s) {
+			out = append(out, 0, c)
+		}
+		return out
+	}
+	hashes := map[string]func([]byte) uint32{
+		"FNV-1a":   func(b []byte) uint32 { h := fnv.New32a(); h.Write(b); return h.Sum32() },
+		"FNV-1":    func(b []byte) uint32 { h := fnv.New32(); h.Write(b); return h.Sum32() },
+		"CRC-32":   crc32.ChecksumIEEE,
+		"CRC-32C":  func(b []byte) uint32 { return crc32.Checksum(b, crc32.MakeTable(crc32.Castagnoli)) },
+		"Adler-32": adler32.Checksum,
+	}
+	names := []string{"FNV-1a", "FNV-1", "CRC-32", "CRC-32C", "Adler-32"}
+	for _, hn := range names {
+		for _, form := range []string{"UTF-16BE bytes", "text"} {
+			seen := make(map[uint32]int32, len(strs))
+			found := 0
+			for i, s := range strs {
+				b := []byte(s)
+				if form == "UTF-16BE bytes" {
+					b = utf16be(s)
+				}
+				h := hashes[hn](b)
+				if j, ok := seen[h]; ok && strs[j] != s {
+					pairs = append(pairs, pair{fmt.Sprintf("equal length and equal %s of the %s", hn, form), strs[j], s})
+					found++
+					if found >= 2 {
+						break
+					}
+				} else {
+					seen[h] = int32(i)
+				}
+			}
+		}
+	}
+	for k := 0; k < 6; k++ {
+		a := mk() + mk() + mk()
+		b := a[:8] + mk()[:6] + a[14:]
+		pairs = append(pairs, pair{"equal length, equal first and last eight characters", a, b}, pair{"one is a prefix of the other", a, a[:12+k]})
+	}
+	r.Obs("twin_description_pairs", len(pairs))
+	build := func(txt string, mluc bool) ([]byte, []string) {
+		var data []byte
+		if mluc {
+			u := make([]uint16, len(txt))
+			for i, c := range []byte(txt) {
+				u[i] = uint16(c)
+			}
+			data, _ = imggen.Mluc([]imggen.MlucRecord{{Lang: "en", Country: "US", Text: u}}, nil, 0, 12)
+		} else {
+			data = imggen.TextDescription(txt)
+		}
+		b, _ := imggen.ICCSpec{Header: imggen.MinimalHeader(mluc), Tags: []imggen.ICCTag{{Sig: "desc", Data: data}, {Sig: "cprt", Data: []byte{1, 2, 3, 4}}}}.Build()
+		return b, []string{txt}
+	}
+	for _, pr := range pairs {
+		for _, mluc := range []bool{true, false} {
+			pa, aa := build(pr.a, mluc)
+			pb, ab := build(pr.b, mluc)
+			for step, x := range []struct {
+				p []byte
+				a []string
+			}{{pa, aa}, {pb, ab}, {pa, aa}} {
+				kind, msg := c17Check(x.p, x.a, true, "direct")
+				r.AddEvals(1)
+				if kind != "" {
+					r.Violate("profile", kind+"/twins", fmt.Sprintf("two profiles whose descriptions have %s (%q, %q), read one after the other; read #%d: %s", pr.why, pr.a, pr.b, step+1, msg),
+						map[string]any{"a": base64.StdEncoding.EncodeToString(pa), "b": base64.StdEncoding.EncodeToString(pb), "why": pr.why})
+					break
+				}
+			}
+		}
+	}
+	// several MiB of tag data
+	for _, n := range []int{5 << 20, 17 << 20, 33<<20 + 5} {
+		for _, first := range []bool{true, false} {
+			tags := []imggen.ICCTag{{Sig: "desc", Data: imggen.TextDescription("large profile")}, {Sig: "A2B0", Data: rg.Bytes(n)}}
+			if !first {
+				tags[0], tags[1] = tags[1], tags[0]
+			}
+			b, _ := imggen.ICCSpec{Header: imggen.MinimalHeader(false), Tags: tags}.Build()
+			kind, msg := c17Check(b, []string{"large profile"}, true, "direct")
+			r.AddEvals(1)
+			if kind != "" {
+				r.Violate("profile", kind+"/large", fmt.Sprintf("well-formed profile with a %d-byte tag (desc %s it): %s", n, map[bool]string{true: "before", false: "after"}[first], msg), map[string]any{"tag_bytes": n, "desc_first": first, "seed": r.Seed})
+			}
+		}
+	}
 }
 
 func replayC17(stage string, raw json.RawMessage) (bool, string, error) {
